@@ -74,14 +74,10 @@ async def literal_directives_coercer(
     except Exception as raw_exception:  # pylint: disable=broad-except
         return CoercionResult(
             errors=[
-                graphql_error_from_nodes(
-                    str(raw_exception),
-                    node,
-                    original_error=(
-                        raw_exception
-                        if not is_coercible_exception(raw_exception)
-                        else None
-                    ),
+                raw_exception
+                if is_coercible_exception(raw_exception)
+                else graphql_error_from_nodes(
+                    str(raw_exception), node, original_error=raw_exception
                 )
                 for raw_exception in (
                     raw_exception.exceptions
